@@ -96,6 +96,21 @@ func runC04(c *Ctx) []Obligation {
 		{Prop: P, ID: "commitinfo.returns-decoded", Fn: rm + "getCommitInfo", Assume: []Lit{T(`^nonnil\(invoke github\.com/tendermint/tm-db\.DB\.Get\(.*\)#0\)$`), F(`^nonnil\(\(\*codec\.Codec\)\.LegacyUnmarshalBinaryLengthPrefixed\(`)},
 			Target: RetNotMatch(0, `^var:cInfo$`), Why: "the commit info returned is the one decoded"},
 	})...)
+	out = append(out, c.childHashFollowsChild(P)...)
+	// loading: every version on disk is listed, the newest not above the target is the one loaded, and the tree
+	// (working, last-saved, orphans) is reset onto it
+	LV := "(*store/iavl.MutableTree).LoadVersion"
+	roots := `\(\*store/iavl\.nodeDB\)\.getRoots\(tree\.ndb\)#0`
+	out = append(out, c.Rows([]Row{
+		{Prop: P, ID: "load.working-tree-set", Fn: LV, Assume: []Lit{F(`^eq\(0, builtin\.len\(` + roots + `\)\)$`)}, Barrier: []string{`store:^tree\.ImmutableTree = &var:complit$`}, Target: Success(), Why: "a successful load of a non-empty database installs the loaded tree as the working tree"},
+		{Prop: P, ID: "load.last-saved-set", Fn: LV, Assume: []Lit{F(`^eq\(0, builtin\.len\(` + roots + `\)\)$`)}, Barrier: []string{`store:^tree\.lastSaved = \(\*store/iavl\.ImmutableTree\)\.clone\(&var:complit\)$`}, Target: Success(), Why: "and as the last-saved tree"},
+		{Prop: P, ID: "load.orphans-reset", Fn: LV, Assume: []Lit{F(`^eq\(0, builtin\.len\(` + roots + `\)\)$`)}, Barrier: []string{`store:^tree\.orphans = makemap$`}, Target: Success(), Why: "with no orphans pending"},
+		{Prop: P, ID: "load.root-from-recorded-hash", Fn: LV, Target: StoreTo(`^var:complit\.root$`).ExceptVal(`^\(\*store/iavl\.nodeDB\)\.GetNode\(tree\.ndb, phi:latestRoot\)$`), Why: "the root is the node stored under the recorded root hash of the chosen version"},
+		{Prop: P, ID: "load.target-must-be-reached", Fn: LV, Assume: []Lit{F(`^eq\(0, builtin\.len\(` + roots + `\)\)$`), F(`^eq\(0, targetVersion\)$`), F(`^eq\(phi:latestVersion, targetVersion\)$`)}, Target: Success(), Why: "asking for a version that is not on disk fails"},
+	})...)
+	out = append(out,
+		c.edgeMust(P, "load.every-version-listed", LV, `^next\(range\(` + roots + `\)\)#0$`, true, `mapset:^tree\.versions\[next\(range\(` + roots + `\)\)#1\] = true$`, 1, "every version with a root record becomes an available version"),
+	)
 	return out
 }
 
